@@ -517,9 +517,16 @@ class Unit:
         if auto_for:
             self.lines.append(Line('#[verifier::exec_allows_no_decreases_clause]', ('tmpl', base, tline), fnkey))
         self.emit_repo(s, f['start'], f['open'], text=sig_new.rstrip('\n'), fn=fnkey)
+        # a functional clause (ensures) without props of its own belongs to what the function computes, not to its
+        # totality: C08 is dropped from the inherited list unless it is all there is; requires clauses keep it
+        fprops = [p_ for p_ in props if p_ != 'C08'] or list(props)
+        mode = None
         for ln, l in spec:
+            mk = re.match(r'\s*(requires|ensures|recommends|decreases)\b', l)
+            if mk:
+                mode = mk.group(1)
             lab, lprops = parse_label(l)
-            org = ('spec', base, ln, name, lab, lprops if lprops else props)
+            org = ('spec', base, ln, name, lab, lprops if lprops else (fprops if mode == 'ensures' else props))
             self.lines.append(Line(l, org, fnkey))
             if lab:
                 finfo['clauses'].append(lab)
